@@ -200,6 +200,8 @@ def observe_doc(se, svg, keep_path=False, rendered_stroke=False, skip_ns=None):
     for e in _walk_tree(se, svg, skip_ns):
         vals = getattr(e, "values", None) or {}
         n = vals.get("data-n")
+        own = vals.get("attributes") if isinstance(vals.get("attributes"), dict) else None
+        own_n = own is not None and own.get("data-n") == n and n is not None
         cls = type(e).__name__
         if isinstance(e, se.Shape):
             try:
@@ -216,10 +218,11 @@ def observe_doc(se, svg, keep_path=False, rendered_stroke=False, skip_ns=None):
                     sw = e.stroke_width
             if isinstance(sw, se.Length):
                 sw = ("Len", sw.amount, sw.units)
-            rec = {"n": n, "cls": cls, "geom": geom, "fill": color_val(e.fill), "stroke": color_val(e.stroke), "sw": sw, "id": e.id}
-            if keep_path and geom and geom[0][0] != "error":
-                rec["_path"] = p
+            rec = {"n": n, "own_n": own_n, "cls": cls, "geom": geom, "fill": color_val(e.fill), "stroke": color_val(e.stroke), "sw": sw, "id": e.id}
+            if keep_path:
                 rec["_elem"] = e
+                if geom and geom[0][0] != "error":
+                    rec["_path"] = p
             out.append(rec)
         elif isinstance(e, se.Text):
             t = e.transform
@@ -239,7 +242,7 @@ def records_equal(a, b, rel=1e-9, geom_abs=None):
     if a["cls"] != b["cls"]:
         return False, "class %s != %s" % (a["cls"], b["cls"])
     for k in sorted(set(a) | set(b)):
-        if k in ("geom", "cls") or k.startswith("_"):
+        if k in ("geom", "cls", "own_n") or k.startswith("_"):
             continue
         va, vb = a.get(k), b.get(k)
         if not close_val(va, vb, rel, 0.0):
